@@ -317,7 +317,8 @@ func expectation(cont, key stick.Value, args []stick.Value) (mode expMode, cands
 		}
 		// conceivable conversions: every entry whose key spells / counts the same
 		if key != nil && isScalar(key) {
-			for _, mk := range rv.MapKeys() {
+			for it := rv.MapRange(); it.Next(); {
+				mk, mv := it.Key(), it.Value()
 				k := mk.Interface()
 				if !isScalar(k) {
 					continue
@@ -329,7 +330,7 @@ func expectation(cont, key stick.Value, args []stick.Value) (mode expMode, cands
 					same = ok1 && ok2 && a == b
 				}
 				if same {
-					cands = append(cands, rv.MapIndex(mk).Interface())
+					cands = append(cands, mv.Interface())
 				}
 			}
 		}
@@ -599,9 +600,13 @@ func (p *c16) runIter(res *fw.Result, z gen.Named) {
 				break
 			}
 			if rv.Kind() == reflect.Map {
-				kv := reflect.ValueOf(e.k)
-				want := rv.MapIndex(kv)
-				if !want.IsValid() || !deepEq(want.Interface(), e.v) {
+				found := false
+				for it := rv.MapRange(); it.Next(); {
+					if deepEq(it.Key().Interface(), e.k) && deepEq(it.Value().Interface(), e.v) {
+						found = true
+					}
+				}
+				if !found {
 					res.Fail("map-entry", key, fmt.Sprintf("Iterate(%s): visited (%#v, %#v), which is not an entry of the map", z.Label, e.k, e.v), nil)
 				}
 				seen[fmt.Sprintf("%T:%#v", e.k, e.k)]++
